@@ -9,16 +9,56 @@ CLAIMED = {
    note="Trusted: Coq kernel + vm_compute; translator (gcc parses the headers, cross-checked by a textual parse); harness/dump_tables.c; GF2Poly.v as the definition of the field. No axioms (Print Assumptions: closed under the global context).",
    technique="Coq proof by exhaustive vm_compute sweep over translator-regenerated tables + model/implementation table correspondence",
    ref="3/C14"),
+ "C01": dict(
+   text="Partial proof + C-side decision. Proved in Coq for the streaming LDPC decoder model (any matrix, size, history): the completion query is true iff all k sources are available, and every available symbol lies in the peeling closure of the received set. Not yet proved: that decoded VALUES equal the codeword (value invariant of the partial sums), the ML finish path, the Reed-Solomon algebra. For those, every generated life cycle (all three codecs, both APIs, duplicates, callbacks, with/without finish; every received subset of small codes) compares each available source symbol byte by byte with the encoded source on the compiled C, and the extracted IT model is run on the same histories and its decoded values are compared with the encoded symbols.",
+   note="Trusted: Coq kernel; ITModel.v/RSApi.v mirrors; sessions driver + python oracle. The property's first sentence is NOT a theorem yet (named _partial in Properties_C01.v).",
+   technique="Coq proof (partial: availability/completion) + extracted-model-vs-C correspondence + byte-level oracle on the C",
+   ref="3/C01", cat="proof"),
+ "C02": dict(
+   text="Machine-checked proof (Coq) for the model of the API layer shared by both RS codecs: after ANY history of of_decode_with_new_symbol calls (any order, duplicates, any 1<=k<=n) decoding is complete iff at least k distinct ESIs were submitted; of_finish_decoding returns OK iff complete afterwards and FAILURE iff fewer than k. The algebraic half (any k rows of the systematic Vandermonde generator invertible, inversion correct) is a named hypothesis of these theorems, exercised on the compiled C by every received subset of small codes, both APIs, both codecs, m=4 and 8, and sampled k up to 200; every RS session is also replayed on the extracted API model and compared (statuses, completion, table, callback ESIs).",
+   note="Trusted: Coq kernel; RSApi.v mirror; hypothesis core_ok (MDS + Gauss-Jordan) not discharged in Coq; extraction, drivers, oracle.",
+   technique="Coq proof by invariant over call histories (API layer) + extracted-model-vs-C correspondence; algebra by exhaustive small-code decoding on the C",
+   ref="3/C02", cat="proof"),
+ "C03": dict(
+   text="No Coq model of the ML finish path exists yet, so this property is currently decided on the compiled C only: after of_finish_decoding, completion is compared (both directions) with an independent GF(2) elimination over the parity-check matrix dumped from the session and the received set; every received subset of five small codes, threshold-centred random sets (exactly k..k+3 symbols), both APIs, several orders of the same set.",
+   note="Exploration level: differential testing against an independent rank oracle; no theorem. Trusted: drv_dec.c, tools/ldpc.py gf2_determined.",
+   technique="(no proof yet) independent GF(2) rank oracle on generated and exhaustive received sets",
+   ref="3/C03", cat="exploration"),
  "C04": dict(
    text="Machine-checked proof (Coq, 1,000+ lines, no axioms) that the Gallina model of the iterative decoder (steps 0-3 of of_linear_binary_code_decode_with_new_symbol, degree-1 work list, recursive re-injection, early exits) makes available exactly the source part of the inductively defined peeling closure of the received set, for every well-formed parity-check matrix, every size, every symbol type and every finite history (any order, repetitions, any prefix); never runs out of fuel n+1; order and duplicates provably do not matter. Tied to the C by running the extracted model and the compiled library on the same histories and comparing completion flag, source mask and repair mask after every call, with the matrix read from the C session, plus an independent python closure oracle on the C output.",
    note="Trusted: Coq kernel; ITModel.v as a hand-written mirror of of_it_decoding.c (validated by the per-prefix correspondence); well-formedness of the matrices the C builds is checked on every dumped matrix (proved for the construction under C05/C15); extraction + drivers. No axioms.",
    technique="Coq proof by invariant/induction over a hand-written model + extracted-model-vs-C correspondence after every prefix",
    ref="3/C04"),
+ "C07": dict(
+   text="Exploration only: every generated life cycle of the three codecs (limits included: k up to 200/300, both APIs, callbacks, both decoder roles, early release) runs under ASan/UBSan with each application buffer in its own exact-size heap block, and every buffer handed to the library is compared before/after. No theorem: pointer-level memory safety of compiled C cannot be stated in a Gallina model without a C semantics (none is installed); the index-range/ownership ledger model of DESIGN 3/C07 has not been built.",
+   note="Trusted: ASan/UBSan runtime (alignment and shift-base checks disabled, see tools/vlib.py), drv_dec.c.",
+   technique="(no proof) sanitizer-instrumented exploration of protocol-conforming histories",
+   ref="3/C07", cat="exploration"),
+ "C08": dict(
+   text="Exploration only: malloc/calloc/realloc/free are wrapped at link time in the session driver; after release and after the application freed exactly what the API says it owns, the live-block count must return to its pre-session value, for generated life cycles of all three codecs released at arbitrary points (any number of calls, with/without finish, both roles, all callback modes); double frees are ASan errors. The ledger model of DESIGN 3/C08 has not been built, so there is no theorem.",
+   note="Trusted: link-time allocation counters + ASan, drv_dec.c.",
+   technique="(no proof) allocation accounting over generated life cycles",
+   ref="3/C08", cat="exploration"),
+ "C10": dict(
+   text="Machine-checked proofs (Coq): RS API model: finish returns OK iff complete afterwards / FAILURE iff not, complete iff k distinct symbols; LDPC streaming model: the completion query is true exactly when all k sources are available and availability never reverts along any history. The LDPC finish status and pointer identity are decided by the C-side oracle (every session) and, for RS, by the API-model correspondence.",
+   note="Trusted: Coq kernel; RSApi.v/ITModel.v mirrors; hypothesis core_ok in the RS theorems; drivers and oracle. No ML model: LDPC finish status is not a theorem.",
+   technique="Coq proof by invariant (RS API model, IT model) + extracted-model-vs-C correspondence + status/flag/pointer oracle",
+   ref="3/C10", cat="proof"),
+ "C11": dict(
+   text="Machine-checked proof (Coq) for the RS API model: at decoding time the callback is invoked exactly once per source ESI still missing, in increasing order, never for a received symbol, never when none is registered. LDPC producers (IT step 3, ML simplification, ML Gaussian stage) are decided by the C-side oracle: callback multiset = decoded-not-received sources, size = L, buffer identity (callback buffer vs library buffer) for callback modes buffer/NULL/alternating.",
+   note="Trusted: Coq kernel; RSApi.v mirror; drivers and oracle. LDPC part has no theorem.",
+   technique="Coq proof over the RS API model + extracted-model-vs-C correspondence + callback oracle",
+   ref="3/C11", cat="proof"),
  "C13": dict(
    text="Machine-checked proof (Coq) that the Gallina models of the seven symbol kernels (XOR one->one, many->one with the 8/4/2/1 operand grouping, one->many; GF(2^8) multiply-accumulate of both codecs, GF(2^4) bytewise and packed two-per-byte) change exactly bytes 0..size-1 of the destination(s) into the bytewise definition, read no operand byte at or beyond size, for every size and operand count (no bound), with the table rows proved to be field multiplication in C14. The models keep the C's loop structure and offset arithmetic; they are tied to the compiled C by a differential run (extracted model vs C under ASan, exact-size heap blocks, all 8 alignments, every size 0..70+, operand counts 0..20, every field constant).",
    note="Trusted: Coq kernel + vm_compute; Kernels.v's modelling of a word access as an access to the bytes it covers (LP64 little-endian non-SSE path); alignment exists only on the C side of the correspondence; extraction + drivers. No axioms.",
    technique="Coq proof over hand-written loop-faithful models + extracted-model-vs-C correspondence under ASan",
    ref="3/C13"),
+ "C16": dict(
+   text="Exploration only (codec 5 is not modelled in Coq yet): for every accepted (k, n-k) the dumped matrix is checked to be the d x l product single-parity matrix; every received subset of the small shapes and random subsets of all shapes are decoded through both APIs with finish: no wrong symbol, completion iff the checks determine the sources (independent GF(2) oracle), callbacks, read-only buffers, no leak after release.",
+   note="Trusted: drv_dec.c, python oracles. The generic IT theorem (C04) applies to any well-formed matrix, but the instantiation to the 2D matrix has not been stated.",
+   technique="(no proof yet) structure check + independent GF(2) oracle over exhaustive/random received sets",
+   ref="3/C16", cat="exploration"),
  "C17": dict(
    text="Machine-checked proof (Coq, no axioms) that the Gallina model of the sparse matrix (two consistent families of strictly increasing lists + entry-pool counters; find/insert with the C's last-entry shortcuts and front walks) refines the abstract set of (row, column) pairs: find = membership, insert adds exactly one pair and is idempotent, delete removes exactly one, clear empties, bulk insertion (copy, copyrows, copycols, copy_filled_matrix, dense->sparse) and copy yield the stated sets, every traversal is strictly increasing and enumerates exactly its row/column, and blocks*1024 = free + live entries in every reachable state (so free releases everything), for all dimensions and all operation sequences. Tied to the C by comparing result, all row and column traversals and the pool summary after every operation of generated sequences (extracted model vs C under ASan) plus an independent python set oracle.",
    note="Trusted: Coq kernel; Sparse.v models the linked lists by what their traversals enumerate, pointer surgery itself is only observed under ASan; BLOCK = 1024 is compared with of_mod2sparse_block on every run; extraction + drivers. No axioms.",
@@ -48,7 +88,7 @@ for p in props:
         "evidence_file": "/verif/evidence/%s.json" % i,
         "replay_cmd_template": "./check %s --replay {path}" % i,
         "engine": "coq-proof+correspondence",
-        "level_claimed": {"category": "proof", "text": c["text"], "design_ref": "DESIGN.md section " + c["ref"]},
+        "level_claimed": {"category": c.get("cat", "proof"), "text": c["text"], "design_ref": "DESIGN.md section " + c["ref"]},
         "level_note": c["note"],
         "technique": c["technique"],
     })
